@@ -99,6 +99,45 @@ def order_tags(fn, expr, params, depth=5):
     return {"FILE"}
 
 
+def field_order_tags(fn, expr, params, depth=4):
+    """Order provenance of the FIELDS inside each element of a sequence of rows (``expr``): the rows keep the file's
+    field order unless they were rebuilt by picking fields through an index list, whose order they then carry."""
+    if depth == 0 or not isinstance(expr, ast.Name):
+        return {"FILE"}
+    tags = set()
+    for d in defs_reaching(fn, expr.id, expr):
+        v = d.value
+        if d.kind not in ("assign", "walrus") or v is None or not isinstance(d.target, (ast.Name, type(None))):
+            tags.add("FILE")
+            continue
+        at = d.node.ast if d.node is not None and d.node.ast is not None else expr
+        if isinstance(v, ast.Call) and isinstance(v.func, ast.Name) and v.func.id in ("list", "tuple") and v.args:
+            v = v.args[0]
+        if isinstance(v, (ast.ListComp, ast.GeneratorExp)):
+            elt = v.elt
+            while isinstance(elt, ast.Call) and isinstance(elt.func, ast.Name) and elt.func.id in ("list", "tuple") and elt.args:
+                elt = elt.args[0]
+            idx = None
+            if isinstance(elt, ast.Call) and isinstance(elt.func, ast.Name):
+                # getter = operator.itemgetter(*indices); [getter(row) for row in rows]
+                for g in defs_reaching(fn, elt.func.id, at):
+                    gv = g.value
+                    if isinstance(gv, ast.Call) and norm(gv.func).endswith("itemgetter") and gv.args:
+                        idx = gv.args[0].value if isinstance(gv.args[0], ast.Starred) else None
+            elif isinstance(elt, (ast.ListComp, ast.GeneratorExp)) and isinstance(elt.elt, ast.Subscript):
+                # [[row[i] for i in indices] for row in rows]
+                idx = elt.generators[0].iter
+            if idx is not None:
+                tags |= order_tags(fn, idx, params, depth - 1)
+            else:
+                tags |= field_order_tags(fn, v.generators[0].iter, params, depth - 1) if isinstance(v.generators[0].iter, ast.Name) else {"FILE"}
+        elif isinstance(v, ast.Name):
+            tags |= field_order_tags(fn, v, params, depth - 1)
+        else:
+            tags.add("FILE")
+    return tags or {"FILE"}
+
+
 def check(ctx):
     repo = ctx.repo
     ctx.rule("FWD-alias", "alias has the target's signature minus cls; single call of the declared target on every path; "
@@ -195,6 +234,16 @@ def check(ctx):
                 restrict = {p for p in fn.all_params if p in RESTRICT}
                 ta = order_tags(f, c.args[0], restrict)
                 tb = order_tags(f, c.args[1], restrict)
+                # zip(names, row) for row in rows: the order that matters is that of the fields inside each row
+                for k_, a_ in enumerate(c.args):
+                    if isinstance(a_, ast.Name):
+                        cb = comprehension_binding(f, a_.id, a_)
+                        if cb and cb[0] == "comp" and isinstance(cb[1], ast.Name):
+                            t_ = field_order_tags(f, cb[1], restrict)
+                            if k_ == 0:
+                                ta = t_
+                            else:
+                                tb = t_
                 n_sites += 1
                 ok = ("REQUEST" in ta) == ("REQUEST" in tb)
                 ctx.ob("TNT-order", fn, norm(c), c, ok,
@@ -345,6 +394,28 @@ def check(ctx):
                        f"the loop over {P} does not apply its pairs ({ {k: v for k, v in used.items()} }, stores={stores}): the type map is "
                        f"accepted and silently ignored", clause="casting them")
     ctx.count("loops over a type map", n_tf, 2)
+    # TYPE-late: the type map is applied to what was read; it is never handed to the foreign parser, whose own typed
+    # parsing differs from parse-then-cast ("007" read as a string column stays "007", read-then-cast gives "7")
+    from ..dataflow import depends_on
+    ctx.rule("TYPE-late", "no argument of a foreign parsing call depends on the dtype/type map parameter")
+    n_parse = 0
+    for q in READERS:
+        fn = repo.functions.get(q)
+        if fn is None:
+            continue
+        for P in [p_ for p_ in TYPING if p_ in fn.kwonly + fn.params]:
+            for f_, c in calls_in(fn, False):
+                d = repo.dotted(f_, c.func) or ""
+                if not d.startswith(("pyarrow.", "csv.", "json.", "pandas.", "numpy.load")):
+                    continue
+                n_parse += 1
+                dep = [norm(a)[:50] for a in list(c.args) + [k.value for k in c.keywords] if depends_on(fn, a, c, P)]
+                ctx.ob("TYPE-late", fn, f"{norm(c.func)}(...) independent of {P}", c, not dep,
+                       f"the parser does not see {P}" if not dep else
+                       f"argument(s) {dep} of {d} are computed from {P}: the foreign parser types those columns while reading, which is "
+                       f"not the same as reading everything and casting afterwards (leading zeros, '1.50', booleans and missing-value "
+                       f"markers survive as raw text)", clause="a dtype/type mapping gives the same result as reading everything and then casting")
+    ctx.count("foreign parsing calls in readers with a type map", n_parse, 1)
     ctx.count("restriction/typing parameters of readers", n_live, 14)
     ctx.count("positional labelling sites", n_sites, 2)
 
